@@ -374,6 +374,9 @@ func (e *kvElection) becomeLeader(token string, rev uint64) {
 	e.lastHeartbeat.Store(now)
 	e.lastTransition.Store(now)
 	e.leaderStartTime.Store(now)
+	// Health failures are counted per term: a count left over from an earlier
+	// term must not shorten this one.
+	e.healthFailureCount.Store(0)
 
 	e.recordTransition(fromState, StateLeader)
 	e.updateIsLeaderMetric()
